@@ -6,6 +6,7 @@ import os
 import re
 from pathlib import Path
 import common as C
+import gen_seq
 
 PROPERTIES = ["C03"]
 MANIFEST = {
@@ -58,7 +59,7 @@ MANIFEST = {
         "design_ref": "DESIGN.md 3/C03",
     }
 }
-PROPS = ["Nstd.Seq.Props", "Nstd.Seq.PropsSort", "Nstd.Seq.PropsAlias", "Nstd.Seq.PropsHeap"]
+PROPS = ["Nstd.Seq.Props", "Nstd.Seq.PropsSort", "Nstd.Seq.PropsAlias", "Nstd.Seq.PropsHeap", "Nstd.Seq.PropsLink"]
 LEAN_TARGETS = PROPS + ["drv_seq"]
 DRIVER = "drv_seq"
 
@@ -196,8 +197,24 @@ def translate(repo=None):
     return True, f"mask={mask} (2^{bits}-1) list block={lk} pool block={pk}"
 
 
+GEN_LINK = C.LEAN / "Nstd" / "Generated" / "SeqLink.lean"
+
+
+def translate_link(repo=None):
+    """(ok, message): the relinking bodies of List::insert/remove/swap and PoolList::linkFreeItem/remove/swap of the CURRENT
+    headers -> lean/Nstd/Generated/SeqLink.lean (tools/gen_seq.py); a shape outside the understood subset is refused"""
+    try:
+        return True, "relinking code translated: " + gen_seq.generate(repo or C.REPO, GEN_LINK)
+    except gen_seq.Refuse as e:
+        return False, "tools/gen_seq.py refuses the current relinking code (broken tie): " + str(e)
+    except OSError as e:
+        return False, "tools/gen_seq.py: " + str(e)
+
+
 def gen(ctx):
     ok, msg = translate()
+    ok2, msg2 = translate_link()
+    ok, msg = ok and ok2, msg + "; " + msg2
     if ctx is not None:
         ctx.cov.setdefault("translated", msg)
         ctx.log("translator: " + msg)
@@ -206,6 +223,9 @@ def gen(ctx):
 
 def setup():
     ok, msg = translate()
+    if not ok:
+        print("seq translate:", msg)
+    ok, msg = translate_link()
     if not ok:
         print("seq translate:", msg)
 
